@@ -153,7 +153,7 @@ Qed.
 
 Lemma ini_For i a o s b : ini_ok b -> ini_ok (For i a o s b).
 Proof.
-  intros HI rho pcs c e x v Hwf Hg Hd Hc Hx Hv. cbn [wf] in Hwf. apply andb_prop in Hwf as (_ & Hwf). apply andb_prop in Hwf as (_ & Hwf).
+  intros HI rho pcs c e x v Hwf Hg Hd Hc Hx Hv. cbn [wf] in Hwf. apply andb_prop in Hwf as (_ & Hwf).
   cbn [quant] in Hc. rewrite dget_dmap in Hc. destruct (dget c (quant QInitial b)) as [eb|] eqn:Eeb; [|discriminate].
   inversion Hc; subst e. clear Hc.
   cbn [guard_C07_initial_head] in Hg. unfold for_range in Hg.
